@@ -253,8 +253,35 @@ func VH_C10_NestedKinds() {
 	}
 	// handle: insertion handle or lookup through the parent
 	h := child
-	if vhChoose("handle", 2) == 1 {
-		v, err := parent.lookup(childPos)
+	if hm := vhChoose("handle", 3); hm >= 1 {
+		var v Value
+		var err error
+		if hm == 1 {
+			v, err = parent.lookup(childPos)
+		} else {
+			// the handle yielded by MUTABLE iteration over the parent
+			pos := 0
+			if parent.isMap {
+				err = parent.m.Iterate(vhCompareBK, vhHipB, func(k, val Value) (bool, error) {
+					if kk, ok := k.(vU64); ok && uint64(kk) == uint64(childPos) {
+						v = val
+					}
+					return true, nil
+				})
+			} else {
+				err = parent.arr.Iterate(func(val Value) (bool, error) {
+					pos++
+					if pos == childPos {
+						v = val
+					}
+					return true, nil
+				})
+			}
+			vhAssert(v != nil, "setup: iteration yields the child")
+			if v == nil {
+				return
+			}
+		}
 		vhAssert(err == nil, "setup: lookup child")
 		if err != nil {
 			return
